@@ -172,16 +172,17 @@ Fixpoint parse_objs (fuel : nat) (rest : bytes) : res (list gobj) :=
   match fuel with
   | O => Err EFuel
   | S k =>
-      if blen rest <? 16 then Ok []
+      let n := blen rest in                     (* len(collectionData) - offset *)
+      if n <? 16 then Ok []
       else
         let id := unle (slice rest 0 2) in
         let nrefs := unle (slice rest 2 2) in
         let sz := unle (slice rest 8 8) in
-        if blen rest - 16 <? sz                (* objSize > len - offset - objHeaderSize *)
+        if n - 16 <? sz                        (* objSize > len - offset - objHeaderSize *)
         then (if id =? 0 then Ok [] else Err EBeyond)
         else
         if id =? 0 then parse_objs k (skipn (N.to_nat (16 + align8 sz)) rest)
-        else if blen rest <? 16 + sz then Err EBeyond
+        else if n <? 16 + sz then Err EBeyond
         else match parse_objs k (skipn (N.to_nat (16 + align8 sz)) rest) with
              | Ok l => Ok (mkobj id nrefs (slice rest 16 sz) :: l)
              | Err e => Err e
@@ -244,16 +245,17 @@ Fixpoint wf_objs (adj : N) (fuel : nat) (seen : list N) (rest : bytes) : bool :=
   match fuel with
   | O => false
   | S k =>
-      if blen rest =? 0 then true
-      else if blen rest <? 16 then all_zero rest           (* no room for a free-space header *)
+      let n := blen rest in
+      if n =? 0 then true
+      else if n <? 16 then all_zero rest           (* no room for a free-space header *)
       else
         let id := unle (slice rest 0 2) in
         let sz := unle (slice rest 8 8) in
         all_zero (slice rest 4 4) &&
         (if id =? 0
-         then (unle (slice rest 2 2) =? 0) && (sz + adj =? blen rest)
+         then (unle (slice rest 2 2) =? 0) && (sz + adj =? n)
          else negb (existsb (N.eqb id) seen)
-              && (16 + align8 sz <=? blen rest)
+              && (16 + align8 sz <=? n)
               && wf_objs adj k (id :: seen) (skipn (N.to_nat (16 + align8 sz)) rest))
   end.
 
